@@ -15,12 +15,12 @@ from mc.pool import h64
 
 ID = "C19"
 LEVEL = "model_checking"
-LEVEL_TEXT = ("Explicit-state search over histories of assemblies run in one process: alphabet of 23 events (valid program; program defining "
+LEVEL_TEXT = ("Explicit-state search over histories of assemblies run in one process: alphabet of 24 events (valid program; program defining "
               "macros, symbols and a named scope whose names collide with the probes'; table load; custom .map; HiROM; failure in the "
               "scanner / parser / code generation / label pass / emission, each mid-way; the CLI in-process with -m and -D; relocation + "
-              "incbin + include; failure inside an included file; missing include file; macro block argument; .include_ips with a delta; malformed table file; table file rewritten between assemblies; files read from a sub-directory; code before the first *=; the file API with a mapping argument; failing file-API assemblies of sources in another directory), every history up to depth 2 over all events and depth 3 over 13 core events (thorough 3 / 4) executed from a pristine forked process; the state after each "
+              "incbin + include; failure inside an included file; missing include file; macro block argument; .include_ips with a delta; malformed table file; table file rewritten between assemblies; files read from a sub-directory; code before the first *=; the file API with a mapping argument; failing file-API assemblies of sources in another directory), every history up to depth 2 over all events and depth 3 over 14 core events (thorough 3 / 4) executed from a pristine forked process; the state after each "
               "event is the fingerprint of all module-level mutable state of a816.* and script.* (module globals, class attributes, "
-              "function defaults, cache sizes). In every reached state each of 30 probe programs (valid LoROM/HiROM/.map, macros+scopes, "
+              "function defaults, cache sizes). In every reached state each of 33 probe programs (valid LoROM/HiROM/.map, macros+scopes, "
               "table, failing ones, one that relies on names being absent, files that exist only in a sub-directory, .incbin symbols incl. a file name that is no identifier, code before the first *=, the file API observed through its output file, 400 nested blocks, .text without a table) is assembled twice and must give the blocks, labels, "
               "symbols and error text of the probe assembled alone; one baseline per probe also comes from real fresh interpreters under three string-hash seeds (label order included). "
               "A second family runs <=2 (thorough 3) sources and then a flat probe on ONE Program object and flags silent differences from a fresh Program. Logging is switched on inside the children. Each unit test builds one Program in isolation.")
@@ -75,6 +75,8 @@ EVENTS = {
     "file-api-no-org": ("FILEAPI", None),
     # failing assemblies through the file API, the source sitting in another directory
     "file-api-failures": ("FILEFAIL", None),
+    # the very text (and file name) of probe p-include assembled while the file it includes has OTHER content
+    "rewritten-include": ("REINCLUDE", None),
 }
 EVENT_NAMES = list(EVENTS)
 PROBES = {
@@ -109,16 +111,20 @@ PROBES = {
     "p-incbin-odd-name": ("*=0x018000\n.incbin 'odd-name file.bin'\nafter_odd:\n.db 1\n", "low_rom"),
     "p-text-without-table": ("*=0x018000\n.db 1\n.text 'ab'\n", "low_rom"),
     "p-file-api-incbin": ("*=0x018000\n.incbin 'blob.bin'\nfa:\n.dl fa\n", "file:low:ips"),
+    "p-struct": ("*=0x018000\n.db 1\n.struct foo {\n}\n", "low_rom"),
+    "p-include": ("*=0x018000\n.include 'inc.s'\n.db 7\nafter_inc:\n.dl after_inc\n", "low_rom"),
+    # the command line without options (after an earlier command line WITH options: -m high -D FOO=1)
+    "p-cli-plain": ("*=0x018000\nc0:\n.dl c0\n.db 5\n", "cli"),
     "p-file-api-default": ("n0:\n.db 1\njmp.w n0\nn1:\n.dl n1\n", "file:none:ips"),
 }
 PROBE_NAMES = list(PROBES)
-NONTRIVIAL_EVENTS = {"defines-names", "table", "custom-map", "hirom", "fail-scanner", "fail-parser", "fail-codegen", "fail-labelpass", "fail-emit", "cli", "fail-in-include", "missing-include", "block-argument", "ips-with-delta", "bad-table", "rewritten-table", "many-wide-operands", "files-from-subdir", "no-org", "file-api-no-org", "file-api-failures"}
+NONTRIVIAL_EVENTS = {"defines-names", "table", "custom-map", "hirom", "fail-scanner", "fail-parser", "fail-codegen", "fail-labelpass", "fail-emit", "cli", "fail-in-include", "missing-include", "block-argument", "ips-with-delta", "bad-table", "rewritten-table", "many-wide-operands", "files-from-subdir", "no-org", "file-api-no-org", "file-api-failures", "rewritten-include"}
 
 
 def bound(tier):
     if tier == "thorough":
-        return "all histories of length <= 3 over 23 events and of length 4 over 13 core events (from a pristine process each), 30 probes x 2 after every history; same-Program-object histories <= 3 over 10 sources x 4 flat probes"
-    return "all histories of length <= 2 over 23 events and of length 3 over 13 core events (from a pristine process each), 30 probes x 2 after every history; same-Program-object histories <= 2 over 10 sources x 4 flat probes"
+        return "all histories of length <= 3 over 24 events and of length 4 over 14 core events (from a pristine process each), 33 probes x 2 after every history; same-Program-object histories <= 3 over 10 sources x 4 flat probes"
+    return "all histories of length <= 2 over 24 events and of length 3 over 14 core events (from a pristine process each), 33 probes x 2 after every history; same-Program-object histories <= 2 over 10 sources x 4 flat probes"
 
 
 def norm(text):
@@ -161,7 +167,36 @@ def observe_file(src, mapping, fmt):
     return (status, rc, data, labels, err)
 
 
+def observe_cli(src):
+    """The probe through cli_main (in-process) with only the input and output file named."""
+    from a816 import cli
+    with open("probe_c.s", "w") as f:
+        f.write(src)
+    if os.path.exists("probe_c.out"):
+        os.remove("probe_c.out")
+    saved = sys.argv
+    sys.argv = ["x816", "probe_c.s", "-o", "probe_c.out"]
+    try:
+        try:
+            cli.cli_main()
+            code = 0
+        except SystemExit as e:
+            code = e.code if e.code is not None else 0
+        except Exception as e:  # noqa: BLE001
+            code = "raised " + type(e).__name__
+    finally:
+        sys.argv = saved
+    try:
+        with open("probe_c.out", "rb") as f:
+            data = f.read().hex()
+    except OSError:
+        data = None
+    return ("cli", code, data)
+
+
 def observe(src, rom):
+    if rom == "cli":
+        return observe_cli(src)
     if rom is not None and rom.startswith("file:"):
         _, mapping, fmt = rom.split(":")
         return observe_file(src, mapping, fmt)
@@ -198,6 +233,13 @@ def do_event(name):
                 (pr.assemble_as_patch if fmt == "ips" else pr.assemble)("fa.s", "fa.out", mapping)
             except Exception:  # noqa: BLE001
                 pass
+        return
+    if src == "REINCLUDE":
+        impl.write_files({"inc.s": "incl:\n.db 0x99, 0x98\n.dw incl\n"})
+        impl.assemble(PROBES["p-include"][0], rom="low_rom", filename="probe.s")
+        os.remove("inc.s")
+        impl.assemble(PROBES["p-include"][0], rom="low_rom", filename="probe.s")   # and once while the file is missing
+        impl.write_files({"inc.s": FILES["inc.s"]})
         return
     if src == "FILEFAIL":
         from a816.program import Program
@@ -489,7 +531,7 @@ def run_reuse(n, pre):
             "violations": viol[:12], "depth": n}
 
 
-CORE_EVENTS = ["file-api-failures", "file-api-no-org", "files-from-subdir", "many-wide-operands", "defines-names", "custom-map", "hirom", "fail-codegen", "fail-emit", "cli", "block-argument", "rewritten-table", "fail-in-include"]
+CORE_EVENTS = ["rewritten-include", "file-api-failures", "file-api-no-org", "files-from-subdir", "many-wide-operands", "defines-names", "custom-map", "hirom", "fail-codegen", "fail-emit", "cli", "block-argument", "rewritten-table", "fail-in-include"]
 
 
 def cases(tier, seed):
